@@ -281,6 +281,10 @@ func (d *Data) handleProximity(ctx *datastore.VersionedCtx, w http.ResponseWrite
 		defer server.ThrottledOpDone()
 	}
 
+	if len(parts) < 6 {
+		server.BadRequest(w, r, "proximity must be followed by two labels")
+		return
+	}
 	label1, err := strconv.ParseUint(parts[4], 10, 64)
 	if err != nil {
 		server.BadRequest(w, r, err)
@@ -354,6 +358,10 @@ func (d *Data) handleIndex(ctx *datastore.VersionedCtx, w http.ResponseWriter, r
 		}
 	}
 
+	if len(parts) < 5 {
+		server.BadRequest(w, r, "index must be followed by a label")
+		return
+	}
 	label, err := strconv.ParseUint(parts[4], 10, 64)
 	if err != nil {
 		server.BadRequest(w, r, err)
@@ -741,6 +749,10 @@ func (d *Data) handleMutationsRange(ctx *datastore.VersionedCtx, w http.Response
 		return
 	}
 
+	if len(parts) < 6 {
+		server.BadRequest(w, r, "mutations-range must be followed by beginning and ending UUID or timestamp")
+		return
+	}
 	rangefmt := queryStrings.Get("rangefmt")
 	switch rangefmt {
 	default:
